@@ -2,17 +2,17 @@ INIT SimInit
 NEXT SimNext
 CONSTANTS
   N = 2
-  MaxConn = 3
-  MaxDialFail = 1
-  MaxKill = 1
+  MaxConn = 4
+  MaxDialFail = 0
+  MaxKill = 2
   FixSessErr = FALSE
   FixRet = FALSE
   FixAdd = FALSE
-  Depth = 19
+  Depth = 9
   Loop = FALSE
-  AddGate = TRUE
+  AddGate = FALSE
   MaxHeal = 1
-  Est = FALSE
+  Est = TRUE
   Rcv = FALSE
   MaxSilent = 0
 CHECK_DEADLOCK FALSE
